@@ -318,8 +318,8 @@ func c18GenCfgHeadroom(r *vRand) c18Cfg {
 	for d := 0; d < 3; d++ {
 		c.pct[d] = [4]int64{-1, -1, -1, -1}
 	}
-	lo := r.Pick([]int64{120, 140, 160})      // node low 30 / 35 / 40 %
-	hi := lo + r.Pick([]int64{60, 80, 100})   // node high 15 - 25 points above
+	lo := r.Pick([]int64{120, 140, 160})    // node low 30 / 35 / 40 %
+	hi := lo + r.Pick([]int64{60, 80, 100}) // node high 15 - 25 points above
 	c.pct[0] = [4]int64{lo, hi, lo - int64(r.Range(20, 40)), hi - int64(r.Range(20, 40))}
 	return c
 }
@@ -885,12 +885,19 @@ func TestVerifC18(t *testing.T) {
 	ctx, cancel := context.WithCancel(context.Background())
 	defer cancel()
 	n := h.N(3000, 30000)
-	for idx := 0; idx < n; idx++ {
+	// cases n .. n+n/10-1: the directed "headroom" stream (extension round 5); the cases 0..n-1 are generated as before
+	for idx := 0; idx < n+n/10; idx++ {
 		r := h.Begin(idx)
 		if r == nil {
 			continue
 		}
-		c := c18GenCfg(r)
+		var c c18Cfg
+		if idx >= n {
+			c = c18GenCfgHeadroom(r)
+			h.Tag("stream:headroom")
+		} else {
+			c = c18GenCfg(r)
+		}
 		h.Op("cfg %d %d %d %d %d", c.abn, c.norm, c.numberOfNodes, vB(c.dry), vB(c.dev))
 		for d := 0; d < 3; d++ {
 			h.Op("pct %d %d %d %d %d", d, c.pct[d][0], c.pct[d][1], c.pct[d][2], c.pct[d][3])
@@ -902,6 +909,12 @@ func TestVerifC18(t *testing.T) {
 		nn := r.Range(2, 6)
 		if r.Chance(1, 15) {
 			nn = int(r.Pick([]int64{1, 7, 8}))
+		}
+		if c.hshape > 0 {
+			nn = 3
+			if r.Bool() {
+				nn = r.Range(4, 5)
+			}
 		}
 		var all []*c18Node
 		for i := 0; i < nn; i++ {
@@ -935,6 +948,17 @@ func TestVerifC18(t *testing.T) {
 					r.Pick([]int64{8 << 30, 16 << 30, 100000000000, 64 << 30}), r.Pick([]int64{4, 8, 10, 16, 110})}
 			}
 			all = append(all, nd)
+		}
+		if c.hshape > 0 {
+			// the three shaped nodes: plain (no amplification, no taint), in the pool; the both-low node is small, the prod
+			// source 4-8 times and the node-level-only receiver 4-16 times its size
+			base := r.Pick([]int64{1000, 4000})
+			mul := [3]int64{r.Pick([]int64{4, 8}), 1, r.Pick([]int64{4, 16})}
+			for i := 0; i < 3; i++ {
+				nd := all[i]
+				nd.inPool, nd.unsched, nd.noFit, nd.rawAnno, nd.ampNum, nd.ampDims, nd.noPodsInAnno = true, false, false, false, 2, [3]bool{}, false
+				nd.cap[0] = base * mul[i]
+			}
 		}
 
 		// ---- the plugin under test
@@ -1298,6 +1322,76 @@ func TestVerifC18(t *testing.T) {
 			filterAsked := map[*c18Pod]int{}
 			firstFilter := map[*c18Pod]bool{}      // answer of the classification-time call
 			evictedFrom := [2]map[int]bool{{}, {}} // source nodes of this round per pass (0 node pass, 1 prod pass)
+			// ---- headroom PER PASS by the oracle's own bookkeeping (extension round 5).  Every measured node is in exactly
+			// one class: a source of the node pass (over node high, not under node low), a source of the prod pass (prod
+			// over prod high and not a source of the node pass), or a receiver: node-level only (under node low, prod usage
+			// neither over prod high nor under prod low), prod only (not under node low, not over node high, under prod
+			// low) or both-low.  Headroom of a receiver = its (prod) high threshold minus its measured (prod) usage.
+			//   node pass: headroom of the node-level-only and of the both-low receivers, minus what the pass moved so far;
+			//   prod pass: prod headroom of the prod-only receivers plus the both-low receivers' share, minus what the prod
+			//              pass moved so far; the both-low share is their prod headroom, capped by their NODE headroom
+			//              and by what the node pass left of ITS headroom (a both-low node takes a prod pod only while it
+			//              stays under its node threshold, and the node pass may have filled it already).
+			// The headroom of the node-level-only receivers is no room for prod pods.
+			ocls := func(nd *c18Node) int {
+				switch {
+				case isUnder(nd) && isProdOver(nd):
+					return 3
+				case isUnder(nd) && isProdUnder(nd):
+					return 4
+				case isUnder(nd):
+					return 0
+				case isOver(nd):
+					return 1
+				case isProdOver(nd):
+					return 3
+				case isProdUnder(nd):
+					return 2
+				}
+				return 5
+			}
+			var hLowOnly, hBothNode, hBothProd, hProdOnly, movedA, movedB [3]int64
+			for _, nd := range measured {
+				k := ocls(nd)
+				for d := 0; d < 3; d++ {
+					switch k {
+					case 0:
+						hLowOnly[d] += thr[nd.id][1][d] - nd.usage[d]
+					case 2:
+						hProdOnly[d] += thr[nd.id][3][d] - nd.prodUsage[d]
+					case 4:
+						hBothNode[d] += thr[nd.id][1][d] - nd.usage[d]
+						hBothProd[d] += thr[nd.id][3][d] - nd.prodUsage[d]
+					}
+				}
+			}
+			min64 := func(a, b int64) int64 {
+				if a < b {
+					return a
+				}
+				return b
+			}
+			// available headroom of the prod pass right now; loose = the both-low share capped by what the node pass left
+			// of the headroom of ALL its receivers only (the over-estimate that also counts node-level-only room)
+			prodHead := func(loose bool) (out [3]int64) {
+				for d := 0; d < 3; d++ {
+					left := hLowOnly[d] + hBothNode[d] - movedA[d]
+					share := min64(hBothProd[d], left)
+					if !loose {
+						share = min64(share, hBothNode[d])
+					}
+					out[d] = hProdOnly[d] + share - movedB[d]
+				}
+				return out
+			}
+			usedUp := func(v [3]int64) bool {
+				for d := 0; d < 3; d++ {
+					if c.tracked(d) && v[d] <= 0 {
+						return true
+					}
+				}
+				return false
+			}
 			// "all nodes are underused" (every node in an underused class, none overloaded) is a special case of
 			// "no node is overloaded", so two clauses suffice.
 			if nEv > 0 && ((nOver == 0 && nProdOver == 0) || (nUnder == 0 && nProdUnder == 0)) {
@@ -1323,6 +1417,26 @@ func TestVerifC18(t *testing.T) {
 				if nd == nil {
 					h.Fail("C18:evict-unmeasured-node", "round %d: pod %d evicted from node %d which has no usable metric / is outside the pool", rd, p.id, p.node)
 					continue
+				}
+				passOf := ocls(nd)
+				switch {
+				case passOf == 1:
+					var left [3]int64
+					for d := 0; d < 3; d++ {
+						left[d] = hLowOnly[d] + hBothNode[d] - movedA[d]
+					}
+					if usedUp(left) {
+						h.Fail("C18:evict-after-headroom-used:node", "round %d: pod %d evicted from node %d (node pass) although the headroom of the underused nodes was used up: node-level-only receivers %v + both-low receivers %v - moved %v = %v",
+							rd, p.id, nd.id, hLowOnly, hBothNode, movedA, left)
+					}
+				case passOf == 3 && p.prod:
+					if left := prodHead(false); usedUp(left) {
+						h.Fail("C18:evict-after-headroom-used:prod", "round %d: prod pod %d evicted from node %d (prod pass) although the headroom of the prod-underused nodes was used up: prod-only receivers %v + both-low share min(prod headroom %v, node headroom %v, left by the node pass %v + %v - %v) - moved %v = %v",
+							rd, p.id, nd.id, hProdOnly, hBothProd, hBothNode, hLowOnly, hBothNode, movedA, movedB, left)
+						if !usedUp(prodHead(true)) {
+							h.Tag("headroom:prod-eviction-into-node-level-only-room")
+						}
+					}
 				}
 				// what the filters answer for this pod at the moment of the call (first ask: f1, later asks: f2),
 				// whether or not the code asked
@@ -1409,8 +1523,32 @@ func TestVerifC18(t *testing.T) {
 						} else {
 							usedB[d] += q[d]
 						}
+						switch passOf {
+						case 1:
+							movedA[d] += q[d]
+						case 3:
+							movedB[d] += q[d]
+						}
 					}
 					runU[nd.id], runPU[nd.id] = u, pu
+				}
+			}
+			// how the prod pass of this round ended, by the oracle's bookkeeping (distribution only)
+			if !c.dry && nProdOver > 0 {
+				stillOver := false
+				for _, nd := range measured {
+					stillOver = stillOver || (ocls(nd) == 3 && c.anyAbove(runPU[nd.id], thr[nd.id][3]))
+				}
+				switch {
+				case movedB == [3]int64{}:
+				case !stillOver:
+					h.Tag("headroom:prod-pass:all-sources-relieved")
+				case usedUp(prodHead(false)) && !usedUp(prodHead(true)):
+					h.Tag("headroom:prod-pass:stopped-at-both-low-NODE-headroom(node-level-only-room-left)")
+				case usedUp(prodHead(false)):
+					h.Tag("headroom:prod-pass:stopped-headroom-used")
+				default:
+					h.Tag("headroom:prod-pass:sources-left-over(no-candidate)")
 				}
 			}
 			// ---- the code's own reset rule, evaluated on the oracle's running estimates
@@ -1477,6 +1615,9 @@ func TestVerifC18(t *testing.T) {
 		"assigned pod; amplified nodes (status.allocatable = raw x 1/1.5/2/3 on cpu, cpu+memory or all resources; annotation naming all resources or cpu+memory " +
 		"only; unparsable annotation); ResourceWeights 0-3 / partial / nil; priorities with ties, deletion / eviction cost annotations (valid, rejected); " +
 		"1/8 of the cases are a 'relapse' history (node 0 overloaded at node or prod level until drained, one recovered round, overloaded again); " +
+		"plus n/10 extra cases of the directed 'headroom' stream (cpu thresholds with the prod window 5-10 points under the node window; node 0 a prod-pass " +
+		"source with 3-5 small removable prod pods, node 1 a small both-low node carrying non-prod load, node 2 a large node that is node-low but prod-mid, " +
+		"0-2 free nodes); " +
 		"non-trivial = at least one Evict call in the history; distinct by op lines")
 }
 
